@@ -14,8 +14,8 @@
                         The initial value NaN of oldX2 is overwritten before it is read.
    * isnan(ri)         : nisnan
    Unbounded C loops get explicit fuel and an explicit out-of-fuel flag:
-   * `while(fabs(z)>0.1) z=z/4`  : QFUEL = 540 (every finite double needs <= 515 quarterings; the
-     C loop does not terminate for z = +-inf, which the model reports as hang = true)
+   * `while(fabs(z)>0.1) z=z/4`  : QFUEL = 540 (every finite double needs <= 515 quarterings; non-finite z is
+     caught by the `!isfinite(z)` guard since fix 805dfda, so hang = true is unreachable in binary64)
    * bisection do-while            : BFUEL = 2200
    The bounded C loops (quartic < 64, Newton < 32, doubling n) are structural.
    Definitions only; proofs are in Proofs.v. *)
@@ -105,7 +105,11 @@ Fixpoint dbl3_loop (n : nat) (cs : T * T * T * T) : T * T * T * T :=
   match n with O => cs | S k => dbl3_loop k (dbl3 cs) end.
 
 (* result: (c0,c1,c2,c3) and hang flag *)
+(* `if (!isfinite(z)){ cs[0..3] = nan(""); return; }`  (fix 805dfda): z - z is NaN exactly when z is +-inf or NaN
+   (and 0 otherwise), and that NaN is the value stored (all NaNs are identified by the comparison). *)
 Definition stumpff_cs3 (z : T) : (T * T * T * T) * bool :=
+  let d := z - z in
+  if nisnan N d then ((d, d, d, d), false) else
   let '(z', n, hang) := quarter3 QFUEL z O in
   (dbl3_loop n (series3 z'), hang).
 
@@ -138,6 +142,8 @@ Fixpoint dbl5_loop (n : nat) (st : T * (T * T * T * T * T)) :=
   match n with O => st | S k => dbl5_loop k (dbl5 st) end.
 
 Definition stumpff_cs (z : T) : (T * T * T * T * T * T) * bool :=
+  let d := z - z in
+  if nisnan N d then ((d, d, d, d, d, d), false) else
   let '(z', n, hang) := quarter5 QFUEL z O in
   let '(z'', (c1, c2, c3, c4, c5)) := dbl5_loop n (z', series5 z') in
   let c0 := if0 - z'' * c2 in
